@@ -50,7 +50,14 @@ func VerifC02Plugins() {
 	var wantScheme string
 	extends := false // the plugin appends the user's address itself
 	c02pRP = nil
-	req0 := &http.Request{Method: "GET", Host: "d.com", URL: &url.URL{Path: "/"}, Header: http.Header{}}
+	req0 := &http.Request{Method: "GET", Host: "D.com:443", URL: &url.URL{Path: "/"}, Header: http.Header{}}
+	// the TLS-terminating plugins: no TLS state, a hello without a server name, the name of the Host header
+	// (in another letter case), or the name of some other host
+	sni := zzverif.Choice("tlsServerName", 4)
+	rw0 := &c02pRW{hdr: http.Header{}}
+	if which >= 2 && sni > 0 {
+		req0.TLS = &tls.ConnectionState{ServerName: []string{"", "", "d.COM", "other.com"}[sni]}
+	}
 	switch which {
 	case 0:
 		p, err := NewHTTP2HTTPPlugin(PluginContext{}, &v1.HTTP2HTTPPluginOptions{LocalAddr: "127.0.0.1:80", HostHeaderRewrite: rewriteHost, RequestHeaders: hdrOps})
@@ -65,14 +72,22 @@ func VerifC02Plugins() {
 	case 2:
 		p, err := NewHTTPS2HTTPPlugin(PluginContext{}, &v1.HTTPS2HTTPPluginOptions{LocalAddr: "127.0.0.1:80", HostHeaderRewrite: rewriteHost, RequestHeaders: hdrOps})
 		zzverif.Assume(err == nil)
-		p.(*HTTPS2HTTPPlugin).s.Handler.ServeHTTP(&c02pRW{hdr: http.Header{}}, req0)
+		p.(*HTTPS2HTTPPlugin).s.Handler.ServeHTTP(rw0, req0)
 		rp, wantScheme, extends = c02pRP, "http", true
 	default:
 		p, err := NewHTTPS2HTTPSPlugin(PluginContext{}, &v1.HTTPS2HTTPSPluginOptions{LocalAddr: "127.0.0.1:80", HostHeaderRewrite: rewriteHost, RequestHeaders: hdrOps})
 		zzverif.Assume(err == nil)
-		p.(*HTTPS2HTTPSPlugin).s.Handler.ServeHTTP(&c02pRW{hdr: http.Header{}}, req0)
+		p.(*HTTPS2HTTPSPlugin).s.Handler.ServeHTTP(rw0, req0)
 		rp, wantScheme, extends = c02pRP, "https", true
 	}
+	if which >= 2 && sni == 3 {
+		// a request for a host the TLS session was not opened for is answered 421 and goes nowhere
+		zzverif.Assert(rp == nil && rw0.status == http.StatusMisdirectedRequest, "C02.plugins.request-for-another-host-than-the-tls-session's-is-misdirected")
+		zzverif.Reach("C02.plugins.misdirected")
+		return
+	}
+	// every other request reaches the backend: also one without a server name in the hello
+	zzverif.Assert(which < 2 || rw0.status == 0, "C02.plugins.request-of-the-session's-host-or-without-server-name-is-forwarded")
 	zzverif.Assert(rp != nil && rp.Rewrite != nil, "C02.plugins.reverse-proxy-with-rewrite-hook")
 
 	keep := zzverif.StringUpTo("keepValue", 2, "ab")
